@@ -98,6 +98,13 @@ pub struct PairPlan {
     /// entries of OTHER documents living in the same real stores (never in the ordered map)
     #[serde(default)]
     pub other_docs: Vec<Ent>,
+    /// an earlier life of the reconciled document in the same long-lived store (bit 0: side A,
+    /// bit 1: side B): these entries are written, the document is looked at the way a session
+    /// looks at it, then it is closed, removed and created again before the real fill
+    #[serde(default)]
+    pub prelife: Vec<Ent>,
+    #[serde(default)]
+    pub prelife_sides: u8,
 }
 
 impl Scenario for Pair {
@@ -220,6 +227,8 @@ impl Scenario for Pair {
             probes,
             sync_doc: if rng.chance(1, 2) { 0 } else { rng.below(4) as u8 },
             other_docs: if rng.chance(1, 2) { Vec::new() } else { (0..rng.urange(1, 6)).map(|_| { let mut e = gen_ent(rng, &g); e.d = rng.below(4) as u8; e }).collect() },
+            prelife: if rng.chance(1, 6) { (0..rng.urange(1, 8)).map(|_| gen_ent(rng, &g)).collect() } else { Vec::new() },
+            prelife_sides: rng.range(1, 3) as u8,
         }
     }
 
@@ -247,6 +256,11 @@ impl Scenario for Pair {
         if !plan.ages.is_empty() {
             let mut p = plan.clone();
             p.ages.clear();
+            out.push(p);
+        }
+        if !plan.prelife.is_empty() {
+            let mut p = plan.clone();
+            p.prelife.clear();
             out.push(p);
         }
         if !plan.other_docs.is_empty() {
@@ -380,6 +394,33 @@ impl ranger_ext::Backend for MapStore {
 enum Side {
     Real(Sut),
     Map(MapStore),
+}
+
+/// An earlier life of the reconciled document: written, looked at as a session does (initial
+/// message, heads, a news check, a query), closed, removed, and left to be created again.
+async fn side_prelife(s: &mut Sut, items: &[Ent]) -> Res {
+    let ns = world().doc_id(sd());
+    ensure_doc(s.store(), sd())?;
+    for e in items {
+        let mut e = e.clone();
+        e.d = sd();
+        offer(s.store(), &e, Path::Remote).await?;
+    }
+    {
+        let mut r = s.store().open_replica(&ns).map_err(|e| harness(format!("open: {e}")))?;
+        let _ = r.sync_initial_message().map_err(|e| harness(format!("initial message: {e:#}")))?;
+    }
+    s.store().close_replica(ns);
+    let heads: Vec<_> = s.store().get_latest_for_each_author(ns).map_err(|e| harness(format!("{e:#}")))?.filter_map(|r| r.ok()).collect();
+    let mut h = iroh_docs::AuthorHeads::default();
+    for (a, t, _) in heads {
+        h.insert(a, t);
+    }
+    let _ = s.store().has_news_for_us(ns, &h);
+    let _ = s.store().get_many(ns, iroh_docs::store::Query::all()).map(|i| i.count());
+    let _ = s.store().get_sync_peers(&ns).map(|i| i.map(|i| i.count()));
+    s.store().remove_replica(&ns).map_err(|e| harness(format!("remove: {e:#}")))?;
+    Ok(())
 }
 
 impl Side {
@@ -549,6 +590,16 @@ impl Pair {
                     for e in plan.other_docs.iter().filter(|e| e.d != sd()) {
                         ensure_doc(s.store(), e.d)?;
                         offer(s.store(), e, Path::Remote).await?;
+                    }
+                }
+            }
+            if !plan.prelife.is_empty() {
+                for (side, bit) in [(&mut a, 1u8), (&mut b, 2u8)] {
+                    if plan.prelife_sides & bit != 0 {
+                        if let Side::Real(s) = side {
+                            side_prelife(s, &plan.prelife).await?;
+                            cx.fault("document_had_an_earlier_life_in_this_store");
+                        }
                     }
                 }
             }
